@@ -39,7 +39,13 @@ func MakeTimestamp(t time.Time) uint64 {
 	return uint64(t.UnixNano() / int64(time.Millisecond))
 }
 
+// ConvertNonce converts the bytes of a nonce into an Interest nonce.
+// The Nonce element of an Interest has four octets, so the result is the
+// big-endian number made of the last four bytes given (fewer if there are fewer).
 func ConvertNonce(nonce []byte) *uint64 {
+	if len(nonce) > 4 {
+		nonce = nonce[len(nonce)-4:]
+	}
 	ret := uint64(0)
 	for _, v := range nonce {
 		ret = ret*256 + uint64(v)
